@@ -4,7 +4,7 @@
    with Python's float(), independently of numpy's reader). Definitions only. *)
 From Coq Require Import String.
 From Coq Require Import List Arith ZArith Bool.
-From PV Require Import Base.Index Np.Array Model.Sparse Model.Repr Model.Harness Model.C16IO.
+From PV Require Import Base.Index Np.Array Model.Sparse Model.Repr Model.Harness Model.C16IO Model.C16Lines.
 Import ListNotations.
 
 Definition ztoken := token Z.
@@ -39,6 +39,19 @@ Definition c16_file_ok (b : Z) (o : zobj) (file : list (list ztoken)) : bool := 
 Definition c16_import_ok (b : Z) (file : list (list ztoken)) (got : zobj) : bool :=
   opt_eqb obj_eqb (zimport b (concat file)) (Some got).
 Definition c16_roundtrip_ok (b : Z) (o : zobj) : bool := opt_eqb obj_eqb (zimport b (zexport b o)) (Some o).
-(* the whole check of one case: layout of the real file, import of the real file, and the property itself *)
+(* ---- the line-sensitive import model (Model/C16Lines.v) on bit patterns ---- *)
+(* the 64-bit pattern of the double that an integer text denotes (exact for |z| < 2^53) *)
+Definition z_bits (z : Z) : Z :=
+  if (z =? 0)%Z then 0%Z else
+  let a := Z.abs z in let e := Z.log2 a in
+  let m := ((if (e <=? 52)%Z then a * 2 ^ (52 - e) else a / 2 ^ (e - 52)) - 2 ^ 52)%Z in
+  ((if (z <? 0)%Z then 2 ^ 63 else 0) + (e + 1023) * 2 ^ 52 + m)%Z.
+Definition zimport_lines (b : Z) (file : list (list ztoken)) : option zobj := import_lines Z Z 0%Z zid z_bits b file.
+(* a (possibly malformed) file: the model's verdict — rejected, or the object read — is pyttb's *)
+Definition c16_lines_ok (b : Z) (file : list (list ztoken)) (got : option zobj) : bool :=
+  opt_eqb obj_eqb (zimport_lines b file) got.
+
+(* the whole check of one case: layout of the real file, import of the real file (token-level AND line-level model), and
+   the property itself *)
 Definition c16_case (b : Z) (o : zobj) (file : list (list ztoken)) (got : zobj) : bool :=
-  c16_file_ok b o file && c16_import_ok b file got && obj_eqb got o && c16_roundtrip_ok b o.
+  c16_file_ok b o file && c16_import_ok b file got && c16_lines_ok b file (Some got) && obj_eqb got o && c16_roundtrip_ok b o.
